@@ -90,6 +90,23 @@ class K:
     def add(self, n, /, *, k=0):
         return n
 ''',
+    "late-import": '''import os
+import sys
+
+sys.path.insert(0, os.getcwd())  # must run before the next import
+import json
+
+LATE = json.dumps([1])
+
+
+def f(a, b=2):
+    return a
+
+
+class K:
+    def m(self, x):
+        return x
+''',
     "future": '''from __future__ import annotations
 import sys
 
@@ -241,11 +258,14 @@ def run(ctx):
         H.section("apply through the CLI on a package module", "module inside a package using `from .models import User` and a function-local import; traced with monkeytype.trace, `monkeytype apply [--pep_563]`; "
                   "the rewritten file keeps its erased AST and still imports in a fresh interpreter", "2 flag sets")
         APP = "from .models import User\n\n\ndef get(u, n=1):\n    return u\n\n\ndef lazy(n):\n    from .models import Extra  # run-time use\n    return Extra()\n\n\nRESULT = get(User()).__class__.__name__\n"
-        for flags in ([], ["--pep_563"]):
-            fx = Fixture("fxc15_%d_%d" % (ctx["seed"], len(flags)))
+        LONG = "Optional[Union[Dict[str, List[int]], Tuple[int, ...], List[Dict[str, Tuple[int, int, int]]]]]"
+        APP_LONG = ("from typing import Dict, List, Optional, Tuple, Union\n" + APP).replace("def get(u, n=1):", "def get(u: %s, n: %s = 1) -> %s:" % (LONG, LONG, LONG))
+        for flags in ([], ["--pep_563"], ["--ignore-existing-annotations"]):
+            fx = Fixture("fxc15_%d_%d" % (ctx["seed"], len(flags) + 2 * ("--ignore-existing-annotations" in flags)))
+            APP_ = APP_LONG if "--ignore-existing-annotations" in flags else APP
             try:
                 fx.write("models.py", "class User:\n    pass\n\n\nclass Extra:\n    pass\n")
-                fx.write("app.py", APP)
+                fx.write("app.py", APP_)
                 app = fx.module("app")
                 cfg = importlib.import_module(fx.name + "_cfg").CONFIG
                 with monkeytype.trace(cfg):
@@ -257,10 +277,15 @@ def run(ctx):
                 if rc != 0:
                     problems.append("apply exits with %r: %s" % (rc, err[-300:]))
                 else:
-                    orig = ast.parse(APP)
-                    got = new_src.replace("from __future__ import annotations\n", "", 1) if flags else new_src
-                    if ast.dump(erase(strip_added(ast.parse(got), orig))) != ast.dump(erase(ast.parse(APP))):
-                        problems.append("program text changed beyond annotations / imports")
+                    orig = ast.parse(APP_)
+                    got = new_src.replace("from __future__ import annotations\n", "", 1) if "--pep_563" in flags else new_src
+                    try:
+                        if ast.dump(erase(strip_added(ast.parse(got), orig))) != ast.dump(erase(ast.parse(APP_))):
+                            problems.append("program text changed beyond annotations / imports")
+                    except SyntaxError as e:
+                        problems.append("the rewritten file is not valid Python: %r" % (e,))
+                    if new_src.strip() != out.strip():
+                        problems.append("the file on disk differs from the source `apply` printed")
                     env = dict(os.environ, PYTHONPATH=os.pathsep.join([fx.dir] + [p_ for p_ in sys.path if p_]))
                     pr = subprocess.run([sys.executable, "-c", "import %s.app as a; assert a.RESULT == 'User'; assert a.lazy(1).__class__.__name__ == 'Extra'" % fx.name], env=env, capture_output=True, text=True, cwd=fx.dir, timeout=120)
                     if pr.returncode != 0:
